@@ -76,6 +76,8 @@ def make_scenarios(ctx, count, per):
         tuples = []
         worn = 0
         small_changes = 0
+        repeated = 0
+        last_disc = None
         for _ in range(per):
             t = rand_tuple(rng, idx)
             if tuples and tuples[-1] is not None and rng.random() < 0.3:
@@ -120,9 +122,17 @@ def make_scenarios(ctx, count, per):
                 s.add("FR 0 %d %s" % (N, filler.hex()))
                 tuples.append(None)
                 worn += 1
-            s.frame(0, W.discover(mapper, rng.getrandbits(16), rng.getrandbits(16), [], tos=rng.choice([0, 1])))
+            if last_disc is not None and tuples[-1] is not None and rng.random() < 0.25:
+                # the mapper repeats its Discover unchanged (same service, generation and sequence number - a retransmission)
+                # right after the attributes changed: the Hello that answers it describes the interface as it is now
+                disc = last_disc
+                repeated += 1
+            else:
+                disc = W.discover(mapper, rng.getrandbits(16), rng.getrandbits(16), [], tos=rng.choice([0, 1]))
+            last_disc = disc
+            s.frame(0, disc)
             tuples.append(t)
-        s.meta = dict(tuples=tuples, worn=worn, small_changes=small_changes)
+        s.meta = dict(tuples=tuples, worn=worn, small_changes=small_changes, repeated=repeated)
         scns.append(s)
     return scns
 
@@ -134,6 +144,7 @@ def be32(v):
 def monitor(scn, sobj, rep, sf, ck):
     tuples = sobj.meta["tuples"]
     rep.count("single_attribute_small_changes_between_hellos", sobj.meta.get("small_changes", 0))
+    rep.count("discovers_repeated_unchanged_after_an_attribute_change", sobj.meta.get("repeated", 0))
     for idx, inp in enumerate(scn.inputs):
         if idx >= len(tuples) or inp.out is None:
             break
@@ -213,7 +224,7 @@ def monitor(scn, sobj, rep, sf, ck):
 def run(ctx):
     rep = ctx.report
     rep.rule = ("attribute tuples dense on byte boundaries (00/01/7F/80/FF bytes, 01 02 03 04 words, names of length 0..40, all "
-                "RSSI values, wireless on/off, getters failing independently), one Discover per tuple, every decoded Hello "
+                "RSSI values, wireless on/off, getters failing independently), one Discover per tuple (a quarter of them the previous Discover repeated unchanged - same service, generation, sequence number - right after the attributes changed), every decoded Hello "
                 "property compared with what the port supplied; plus the Linux layer: the real os/linux/lltd_port.c linked "
                 "with the core, Hello compared with the network_interface_t record; distinct by attribute tuple")
     rep.assumptions = ["a property whose getter reports failure (any non-zero code) must be absent or all zero bytes",
@@ -230,6 +241,7 @@ def run(ctx):
     rep.need("tuples_with_failing_getters", c.get("tuples_with_failing_getters", 0), 500)
     rep.need("failed_getter_positive_code_judged", c.get("failed_getter_positive_code_judged", 0), 300)
     rep.need("both name conventions", min(c.get("conv:0", 0), c.get("conv:1", 0)), 1000)
+    rep.need("discovers_repeated_unchanged_after_an_attribute_change", c.get("discovers_repeated_unchanged_after_an_attribute_change", 0), 500)
     rep.need("single_attribute_small_changes_between_hellos", c.get("single_attribute_small_changes_between_hellos", 0), 1000)
     rep.need("long_runs_of_frames_between_attribute_change_and_discover", c.get("long_runs_of_frames_between_attribute_change_and_discover", 0), 50)
     c04_linux.run(ctx)
